@@ -270,6 +270,26 @@ def check_property(pid, tier='quick', seed=0, replay_only=None):
                 if found:
                     rescue.append(u)
                     lines.append('VIOLATION property=%s replay=%s' % (pid, path))
+    # THOROUGH tier only: besides the proofs, execute the REAL code on every unit's whole replay battery with several
+    # seeds (the same differential searches that turn a refuted obligation into a concrete input).  This is bounded
+    # exploration, labelled so in the evidence and never counted as proof; it reaches code the contracts abstract
+    # (callees behind shims, the read loop, codecs behind assumed round trips).  A concrete failing input is a violation.
+    battery = []
+    if tier == 'thorough':
+        from . import replay as RP
+        sweep = int(os.environ.get('VERIF_BATTERY_SEEDS', '6') or 0)
+        for u in units:
+            if u in rescue:
+                continue
+            for sd in range(seed + 1, seed + 1 + sweep):
+                res, why = RP.driver(pid, u + '/*', sd)
+                battery.append({'unit': u, 'seed': sd, 'found': bool(res and res.get('found')), 'note': why})
+                if res and res.get('found'):
+                    path, found = RP.make_replay(pid, u + '/*', ['thorough-tier battery sweep, seed %d' % sd], {'text': 'whole replay battery of unit ' + u}, sd)
+                    if found:
+                        rescue.append(u)
+                        lines.append('VIOLATION property=%s replay=%s' % (pid, path))
+                    break
     if rescue:
         exit_code = 1
     if violations and undecided:
@@ -304,6 +324,7 @@ def check_property(pid, tier='quick', seed=0, replay_only=None):
             'normalisation_log': normlog,
             'known_finding_obligations': [k['obligation'] for k in known_hits],
             'bounded_standins': [k for k in kani_res if not k.get('counts_as_proof')],
+            'battery_sweep_bounded': battery,
             'kani_not_run': [{'harness': k['harness'], 'reason': k.get('reason', '')} for k in kani_not_run],
             'kani_complete_proofs': [k for k in kani_res if k.get('counts_as_proof')],
             'undecided': undecided + never_proved + internal_only,
